@@ -86,22 +86,26 @@ def do_import(pid, root='/tmp/mut', variants=('A', 'B')):
 
 
 def do_run(seed, props):
+    # SEED_REPO / SEED_VERIF: run against a scratch worktree of /repo with a scratch copy of /verif (parallel lanes of the
+    # seed matrix); the result is recorded under /verif/seeded all the same
+    REPO = os.environ.get('SEED_REPO', '/repo')
+    VERIF_RUN = os.environ.get('SEED_VERIF', VERIF)
     d = os.path.join(SEEDED, seed)
     meta = json.load(open(os.path.join(d, 'meta.json')))
     props = props or [meta['property']]
-    rc, out = sh('git -C /repo status --porcelain')
+    rc, out = sh('git -C %s status --porcelain' % REPO)
     if out.strip():
-        print('refusing: /repo is not clean:\n' + out)
+        print('refusing: %s is not clean:\n' % REPO + out)
         return 2
-    rc, out = sh('git -C /repo apply %s' % os.path.join(d, 'patch.diff'))
+    rc, out = sh('git -C %s apply %s' % (REPO, os.path.join(d, 'patch.diff')))
     if rc != 0:
         print('patch does not apply:', out)
         return 2
     res = {}
     try:
         for p in props:
-            rc, out = sh('./check %s --tier quick' % p, cwd=VERIF, env=dict(os.environ, VERIF_SEED=os.environ.get('VERIF_SEED', '0'),
-                                                                            VERIF_EVIDENCE_DIR='/var/tmp/verif-seed-evidence'))
+            rc, out = sh('./check %s --tier quick' % p, cwd=VERIF_RUN, env=dict(os.environ, VERIF_SEED=os.environ.get('VERIF_SEED', '0'), VERIF_REPO=REPO,
+                                                                                VERIF_EVIDENCE_DIR='/var/tmp/verif-seed-evidence' + ('-' + os.path.basename(VERIF_RUN) if VERIF_RUN != VERIF else '')))
             lines = [l for l in out.splitlines() if l.startswith(('VIOLATION', 'KNOWN-FINDING', 'ERROR', p))]
             res[p] = {'exit': rc, 'lines': lines[-6:]}
             rep = None
@@ -117,7 +121,7 @@ def do_run(seed, props):
                 res[p]['replay'] = rep
             print(seed, p, 'exit', rc, '|'.join(lines[-3:])[:400])
     finally:
-        sh('git -C /repo checkout -- .')
+        sh('git -C %s checkout -- .' % REPO)
     old = {}
     rp = os.path.join(d, 'result.json')
     if os.path.exists(rp):
